@@ -361,12 +361,15 @@ def generate(rng, index, tier):
     for _ in range(rng.choice([0, 2, 4, 8])):
         extra.append(adversarial_remote(rng, rng.choice(PEERS),
                                         last=rng.choice([None, None, name, odd_last])))
-    return {
+    plan = {
         'seed': rng.getrandbits(32),
         'net': dict(FLAT, base_ms=rng.choice([1, 5, 20])) if rng.random() < 0.5 else common.draw_net(rng),
         'exec': execcfg, 'slow': slow, 'chain': chain, 'downloads': downloads,
         'pre': draw_pre(rng, downloads), 'extra': extra,
     }
+    if rng.random() < 0.08:
+        plan['listdir_fault'] = True
+    return plan
 
 
 def base_plan(seed=1, **kw):
@@ -454,6 +457,14 @@ def corpus(tier):
                     dl(0, f'@@bob\\music\\{name}', cd=0.05, size=20000),
                     dl(1, f'@@carol\\music\\{name}', at=gap, cd=0.05, size=20000),
                     dl(2, f'@@dave\\music\\{name}', at=2 * gap, cd=0.05, size=20000)]))
+    # 1e. the download directory cannot be listed; natural name and first numbered name taken, three equally named downloads
+    for chain in [None] + SOUND[:2]:
+        for pre in ([{'path': 'song.mp3', 'kind': 'file', 'size': 3}],
+                    [{'path': 'song.mp3', 'kind': 'file', 'size': 3}, {'path': 'song (1).mp3', 'kind': 'file', 'size': 4}]):
+            out.append(base_plan(chain=chain and list(chain), pre=pre, listdir_fault=True, downloads=[
+                dl(0, song.replace('{peer}', 'bob'), cd=0.05, size=20000),
+                dl(1, song.replace('{peer}', 'carol'), at=0.02, cd=0.05, size=20000),
+                dl(2, song.replace('{peer}', 'dave'), at=3.0)]))
     # 1c. the download directory setting is changed while the client runs: later choices lie inside the new directory
     for chain in [None] + SOUND[:2]:
         for at in (0.5, 1.5):
@@ -837,7 +848,23 @@ def _run(world: World, plan):
             judge(remote_x, os.path.join(ddir, fname), now, None, 'direct')
         results['final'] = snapshot(sb_root)
 
-    world.run(main())
+    real_listdir = os.listdir
+    if plan.get('listdir_fault'):
+        # the download directory can be written to but not listed (a drop folder, mode 0300): listing it fails for the
+        # library's naming code - a rare but legal answer of the file system
+        import sys as _sys
+
+        def listdir(path='.'):
+            caller = _sys._getframe(1).f_code.co_filename.replace('\\', '/')
+            if caller.endswith('/aioslsk/naming.py') and real(str(path)).startswith(dl_now['real']):
+                world.disk.fired['listdir_permission_denied'] += 1
+                raise PermissionError(13, 'Permission denied', str(path))
+            return real_listdir(path)
+        os.listdir = listdir
+    try:
+        world.run(main())
+    finally:
+        os.listdir = real_listdir
 
     # ------------------------------------------------------------------ effect-level clauses
     base, final = state['base'], results.get('final', {})
